@@ -53,3 +53,30 @@ Definition static_requester_b (o : op_t) : bool :=
   | OpBase (OpDeclareStatic c _) => negb (kind_eqb (fst c) KTree)
   | _ => true
   end.
+
+(* T3': every file node with a creator (attached or not) that lies under an attached tree is a file
+   of that tree; with T1 this gives T3 and, unlike T3, it is inductive *)
+Definition inv_tree_claims_b (s : st) : bool :=
+  forallb (fun n => match nk n, ncre n with
+                    | (KFile, f), Some c =>
+                      forallb (fun t => negb (is_prefix t f) || key_eqb c (KTree, t)) (attached_trees s)
+                    | _, _ => true end) (nodes s).
+Definition inv_tree_strong_b (s : st) : bool :=
+  inv_treefile_b s && inv_trees_nonnested_b s && inv_tree_claims_b s.
+
+(* the hypothesis of the partial tree theorems: a define_step transaction re-attaches no static
+   tree (a full recycle revives the recursive products of the step without the checks of
+   register_static_tree: finding D33) *)
+Definition no_tree_reattached_b (s : st) (o : op_t) : bool :=
+  match o with
+  | OpBase (OpDefineStep _ _ _ _ _ _ _) =>
+    forallb (fun t => negb (is_detached (KTree, t) s)) (attached_trees (apply_op_t s o))
+  | _ => true
+  end.
+
+(* the hypotheses of the partial tree theorems along a history *)
+Fixpoint tree_hyps_run (s : st) (ops : list op_t) : bool :=
+  match ops with
+  | [] => true
+  | o :: ops' => static_requester_b o && no_tree_reattached_b s o && tree_hyps_run (apply_op_t s o) ops'
+  end.
